@@ -47,12 +47,32 @@ var c03Inl = []inl{
 	{"strong", wrapInl("strong")},
 	{"u", wrapInl("u")},
 	{"a-rel", func(t *ora.Tok) string { return "<a href=\"rel/" + t.U() + ".html\">" + t.W(2) + "</a>" }},
+	// hidden inline elements between the visible words (used by the "hidden" sub-space only)
+	{"hid-attr", func(t *ora.Tok) string { return "<span hidden>" + t.W(1) + "</span>" }},
+	{"hid-dn", func(t *ora.Tok) string { return "<span style=\"display:none\">" + t.W(1) + "</span>" }},
+	{"hid-aria", func(t *ora.Tok) string { return "<b aria-hidden=\"true\">" + t.W(1) + "</b>" }},
+	{"hid-empty", func(t *ora.Tok) string { return "<span hidden></span>" }},
 }
+
+const c03Hidden = 4 // the last four symbols
 
 const c03QuickSyms = 16
 
 var c03Contexts = []string{"body", "div", "li", "blockquote", "td-layout", "td-data"}
 var c03Surround = []string{"kept", "dropped", "between"}
+
+// c03ProbeInner renders the children of the probe paragraph (tokens start at 1, as in c03Doc).
+func c03ProbeInner(seq []int) string {
+	t := &ora.Tok{}
+	var probe strings.Builder
+	for i, s := range seq {
+		if i > 0 {
+			probe.WriteByte(' ')
+		}
+		probe.WriteString(c03Inl[s].gen(t))
+	}
+	return probe.String()
+}
 
 func c03Doc(seq []int, ctx, sur string) string {
 	t := &ora.Tok{}
@@ -124,9 +144,72 @@ func c03Enumerate(tier string, emit func(*eng.Case)) {
 			emit(&eng.Case{Kind: "deep", HTML: c03DeepDoc(d, ctx), P: map[string]string{"doc": fmt.Sprintf("probe paragraph under %d nested divs, in %s", d, ctx)}})
 		}
 	}
+	// paragraphs with one hidden inline element among <= 3 (quick) / <= 4 (thorough) visible children
+	{
+		base := []int{0, 1, 3, 7, 8} // Ts, Tl, b, a-abs, a-js
+		ml := 3
+		if tier == "thorough" {
+			ml = 4
+		}
+		seqEnum(base, ml, func(seq []int) {
+			for at := 0; at <= len(seq); at++ {
+				for h := len(c03Inl) - c03Hidden; h < len(c03Inl); h++ {
+					full := append(append(append([]int{}, seq[:at]...), h), seq[at:]...)
+					var names []string
+					for _, x := range full {
+						names = append(names, c03Inl[x].name)
+					}
+					for _, ctx := range c03Contexts {
+						for _, sur := range c03Surround {
+							emit(&eng.Case{Kind: "para", HTML: c03Doc(full, ctx, sur), P: map[string]string{"doc": fmt.Sprintf("p[%s] in %s, surrounding %s", strings.Join(names, " "), ctx, sur)}})
+						}
+					}
+				}
+			}
+		})
+	}
+	// paragraphs whose whole content sits in one inline wrapper (the block's text nodes then share
+	// that wrapper as nearest common ancestor): inner sequences of 2..3 (thorough: 4) children
+	{
+		inner := []int{0, 1, 3, 7, 2} // Ts, Tl, b, a-abs, br
+		ml := 3
+		if tier == "thorough" {
+			ml = 4
+		}
+		wrappers := []struct{ name, open, close string }{{"strong", "<strong>", "</strong>"}, {"span", "<span>", "</span>"}, {"font", "<font>", "</font>"}, {"a", "<a href=\"http://example.com/l/wrap\">", "</a>"}, {"i-b", "<i><b>", "</b></i>"}}
+		seqEnum(inner, ml, func(seq []int) {
+			if len(seq) < 2 {
+				return
+			}
+			for _, w := range wrappers {
+				if w.name == "a" {
+					skip := false
+					for _, x := range seq {
+						if x == 7 {
+							skip = true // no anchor inside an anchor
+						}
+					}
+					if skip {
+						continue
+					}
+				}
+				var names []string
+				for _, x := range seq {
+					names = append(names, c03Inl[x].name)
+				}
+				for _, ctx := range c03Contexts {
+					for _, sur := range c03Surround {
+						h := c03Doc(seq, ctx, sur)
+						h = strings.Replace(h, "<p>"+c03ProbeInner(seq)+"</p>", "<p>"+w.open+c03ProbeInner(seq)+w.close+"</p>", 1)
+						emit(&eng.Case{Kind: "para", HTML: h, P: map[string]string{"doc": fmt.Sprintf("p[%s( %s )] in %s, surrounding %s", w.name, strings.Join(names, " "), ctx, sur)}})
+					}
+				}
+			}
+		})
+	}
 	nsym, maxLen := c03QuickSyms, 4
 	if tier == "thorough" {
-		nsym, maxLen = len(c03Inl), 5
+		nsym, maxLen = len(c03Inl)-c03Hidden, 5
 	}
 	alpha := make([]int, nsym)
 	for i := range alpha {
@@ -168,7 +251,11 @@ func simpleParagraph(p *html.Node) bool {
 				ok = false
 			}
 			for _, a := range n.Attr {
-				if !(n.Data == "a" && a.Key == "href") {
+				switch {
+				case n.Data == "a" && a.Key == "href":
+				case a.Key == "hidden", a.Key == "aria-hidden", a.Key == "style" && ora.HiddenKind(n) != "":
+					// a hidden inline element is still an inline element; its words are not visible ones
+				default:
 					ok = false
 				}
 			}
@@ -207,6 +294,7 @@ func c03Check(c *eng.Case) *eng.Outcome {
 		return o
 	}
 	textSet := ora.Set(a.TextWords)
+	htmlSet := ora.Set(a.HTMLWords)
 	judged := 0
 	for _, p := range ora.Elements(a.Doc, "p") {
 		if !simpleParagraph(p) {
@@ -239,25 +327,33 @@ func c03Check(c *eng.Case) *eng.Outcome {
 			}
 			judged++
 		}
-		kept := 0
-		for _, x := range ws {
-			if textSet[x.w] {
-				kept++
+		for vi, set := range []map[string]bool{textSet, htmlSet} {
+			view, pre := "text", "split"
+			if vi == 1 {
+				// the same paragraph in the distilled HTML: selection must not cut it there either
+				view, pre = "HTML", "split-html"
 			}
-		}
-		if kept == 0 || kept == len(ws) {
-			continue
-		}
-		// find the first boundary
-		for i := 1; i < len(ws); i++ {
-			if textSet[ws[i-1].w] != textSet[ws[i].w] {
-				how := "kept|lost"
-				if !textSet[ws[i-1].w] {
-					how = "lost|kept"
+			textSet := set
+			kept := 0
+			for _, x := range ws {
+				if textSet[x.w] {
+					kept++
 				}
-				o.V(fmt.Sprintf("split:%s:%s|%s", how, childDesc(p, ws[i-1].n), childDesc(p, ws[i].n)),
-					"paragraph cut in the middle: %d of %d words kept; boundary between %q and %q (%s); %s", kept, len(ws), ws[i-1].w, ws[i].w, how, c.Get("doc"))
-				break
+			}
+			if kept == 0 || kept == len(ws) {
+				continue
+			}
+			// find the first boundary
+			for i := 1; i < len(ws); i++ {
+				if textSet[ws[i-1].w] != textSet[ws[i].w] {
+					how := "kept|lost"
+					if !textSet[ws[i-1].w] {
+						how = "lost|kept"
+					}
+					o.V(fmt.Sprintf(pre+":%s:%s|%s", how, childDesc(p, ws[i-1].n), childDesc(p, ws[i].n)),
+						"paragraph cut in the middle of the distilled "+view+": %d of %d words kept; boundary between %q and %q (%s); %s", kept, len(ws), ws[i-1].w, ws[i].w, how, c.Get("doc"))
+					break
+				}
 			}
 		}
 	}
@@ -280,7 +376,7 @@ func init() {
 		ID:        "C03",
 		DesignRef: "§5 C03",
 		Rule: "one probe paragraph whose children are every sequence of length <= 4 over 16 inline symbols (quick; full-length sequences in 3 of the 18 context/surrounding pairs, shorter ones in all 18) / <= 5 over 21 symbols in all 18 pairs (thorough): text short/long, br, b, span, font, code, a[abs], a[javascript:] with one text child, a[javascript:] with element child, nested b>i, a[javascript:] with text + element child, a[javascript:] with text + br + text, a[href=#], b and a ending in a br (+ i, em, strong, u, a[rel]); " +
-			"contexts {body, div, li, blockquote, layout-table cell, data-table cell} x surroundings {among kept paragraphs, among dropped link clusters, between}; plus a fixed mixed paragraph at every nesting depth 1..300." + crossRule + " (there, paragraphs whose words all occur once) Oracle: for every <p> of the parsed input built only from text, br and plain inline/link elements, its visible words are all in Text or none is. " +
+			"contexts {body, div, li, blockquote, layout-table cell, data-table cell} x surroundings {among kept paragraphs, among dropped link clusters, between}; plus paragraphs of <= 3 (quick) / <= 4 (thorough) children over {text short/long, b, a[abs], a[javascript:]} with one hidden inline element (hidden attribute, display:none, aria-hidden, empty hidden span) at every position, in all 18 pairs; plus paragraphs whose whole content (2..3 / 2..4 children over text short/long, b, a, br) sits inside one inline wrapper (strong, span, font, a, i>b); plus a fixed mixed paragraph at every nesting depth 1..300." + crossRule + " (there, paragraphs whose words all occur once) Oracle: for every <p> of the parsed input built only from text, br and plain inline/link elements, its visible words are all in Text or none is, and likewise all or none of them in the distilled HTML. " +
 			"Non-trivial = probe with >= 2 children including a text leaf and an element.",
 		Enumerate: c03Enumerate,
 		Check:     c03Check,
